@@ -58,6 +58,20 @@ func cdBuild(x cdCand) (ice.Candidate, error) {
 	if err != nil {
 		return nil, err
 	}
+	// AddExtension replaces the value of a key that is already present; a list with a repeated key only comes into being by
+	// parsing (the parser keeps every occurrence), so such a candidate is built from the text of the extension-less one.
+	seen := map[string]bool{}
+	for _, e := range x.Ext {
+		if seen[e.K] {
+			text := c.Marshal()
+			for _, e2 := range x.Ext {
+				text += " " + cdReal.Replace(e2.K) + " " + cdReal.Replace(e2.V)
+			}
+
+			return ice.UnmarshalCandidate(text)
+		}
+		seen[e.K] = true
+	}
 	for _, e := range x.Ext {
 		if err = c.AddExtension(ice.CandidateExtension{Key: cdReal.Replace(e.K), Value: cdReal.Replace(e.V)}); err != nil {
 			return nil, err
